@@ -758,6 +758,9 @@ var transSpecs = []transSpec{
 				"&errSinkNotFound":           {kind: "ext", f: "errSinkNotFound", res: []string{"error"}},
 				"recv.newFileSinkFromPath":   {kind: "fun", f: "newFileSinkFromPath", res: []string{"opt:Sink", "error"}},
 			}),
+		openFunc("sink.go", "", "normalizeScheme", nil, nil, map[string]shim{
+			"strings.ToLower": {kind: "ext", f: "strings.ToLower", res: []string{"string"}},
+		}),
 		openFunc("global.go", "", "redirectStdLogAt",
 			map[string]fieldSpec{"#std.flags": {"std.flags", "int"}, "#std.prefix": {"std.prefix", "string"}, "#std.out": {"std.out", "Writer"}},
 			map[string]string{"_stdLogDefaultDepth": "src", "_loggerWriterDepth": "src"},
